@@ -65,6 +65,40 @@ impl Prop for PPipe {
     fn gen(&mut self, rng: &mut Rng, _idx: usize, tier: &str) -> Value {
         let pool: [&str; 30] = ["a", " ", "  ", "\n", "\t", "'", "\"", "\\", "*", "?", "[", "-", "-n", "--", "{}", "$(id)", "é", "日本", "😀", "a b", "x\ny", "'q'", "\"q\"", "a\\b",
                                 "-print0", "é ", " é", "$HOME", ";", "|"];
+        if _idx % 10 == 3 {
+            // a stream longer than one read buffer, made of multi-byte characters: record boundaries and character
+            // boundaries fall anywhere relative to the 4 KiB / 8 KiB read sizes
+            let rootname = "d".repeat(1 + rng.below(5));
+            let mut tree: Vec<Value> = vec![json!({"parent": 0, "name": str_to_json(&rootname), "kind": "d", "target": 0})];
+            let cnt = if tier == "thorough" { 900 } else { 400 };
+            let chars = ["\u{65e5}", "\u{e9}", "\u{1F600}", "\u{20ac}", "\u{672c}"];
+            for j in 0..cnt {
+                let mut name = format!("{:03}", j);
+                for k in 0..3 + (j % 9) {
+                    name.push_str(chars[(j + k) % chars.len()]);
+                }
+                tree.push(json!({"parent": 1, "name": str_to_json(&name), "kind": "f", "target": 0}));
+            }
+            return json!({"tree": tree, "roots": [{"spell": str_to_json(&rootname), "node": 1}],
+                          "cfg": {"mode": "P", "min": 0, "max": super::pwalk::NOMAX, "depth": false, "sorted": true, "prune": []}, "pre": {"p": "none"}});
+        }
+        if _idx % 10 == 7 {
+            // a newline in one component and a long tail after it (longer than stdout's line buffer)
+            let mut tree: Vec<Value> = vec![json!({"parent": 0, "name": str_to_json("d"), "kind": "d", "target": 0}),
+                                            json!({"parent": 1, "name": str_to_json(*rng.pick(&["x\ny", "\n", "a\n\nb", " \n "])), "kind": "d", "target": 0})];
+            let levels = 3 + rng.below(4);
+            for l in 0..levels {
+                let len = 150 + rng.below(100);
+                let name: String = std::iter::repeat((b'a' + l as u8) as char).take(len).collect();
+                let parent = tree.len();
+                tree.push(json!({"parent": parent, "name": str_to_json(&name), "kind": "d", "target": 0}));
+            }
+            let parent = tree.len();
+            tree.push(json!({"parent": parent, "name": str_to_json("leaf"), "kind": "f", "target": 0}));
+            tree.push(json!({"parent": 1, "name": str_to_json("z"), "kind": "f", "target": 0}));
+            return json!({"tree": tree, "roots": [{"spell": str_to_json("d"), "node": 1}],
+                          "cfg": {"mode": "P", "min": 0, "max": super::pwalk::NOMAX, "depth": rng.chance(1, 3), "sorted": true, "prune": []}, "pre": {"p": "none"}});
+        }
         let n = 2 + rng.below(if tier == "thorough" { 14 } else { 8 });
         let rootname = if rng.chance(1, 3) { rng.pick(&pool).to_string() } else { "d".to_string() };
         let mut tree: Vec<Value> = vec![json!({"parent": 0, "name": str_to_json(&rootname), "kind": "d", "target": 0})];
